@@ -708,3 +708,17 @@ Definition cfile {F : Type} (fzero : F -> bool) (ffmt gfmt : VL.fkind -> F -> by
     (self : bytes) (fx6 : bool) (pkg gen : bytes) (frags : list (@csnip F)) : res bytes :=
   let! (body, e') := crender_all fzero ffmt gfmt fbig quote cbq (pick_c03 pre std) self fx6 frags [] in
   Ok (Gengo.Model.GenFile.assemble pkg gen e' body).
+
+(* ---- side condition of the agreement between C10's and C11's models of Dumper.TypeLit on C10's universe:
+   named types have a package path and an identifier as name (then ParseTypeRef returns the bare name), and the two
+   decimal printers agree on the array lengths that occur (C11 prints with 40 digits of fuel, C10 with Coq's
+   decimal conversion; decided by computation for any concrete type) ---- *)
+Fixpoint ty_okb (t : VL.gotype) : bool :=
+  match t with
+  | VL.TNamed p n _ => negb (is_nil p) && TL.is_ident n
+  | VL.TPtr e | VL.TSlice e => ty_okb e
+  | VL.TArray n e => bytes_eqb (TL.dec (N.of_nat n)) (VL.dec_nat n) && ty_okb e
+  | VL.TMap k e => ty_okb k && ty_okb e
+  | VL.TStruct fs => forallb (fun f => ty_okb (snd f)) fs
+  | _ => true
+  end.
